@@ -78,6 +78,26 @@ var c15Answers = []struct {
 	{"already-confirmed", &pushtx.BroadcastError{Code: pushtx.Confirmed, Reason: "confirmed"}},
 	{"invalid", &pushtx.BroadcastError{Code: pushtx.Invalid, Reason: "invalid"}},
 	{"other-error", errors.New("no peers")},
+	// an error of another backend, which Config.MapCustomBroadcastError
+	// translates into "already in the mempool"
+	{"backend-specific-already-in-mempool", c15BackendMempool},
+}
+
+type c15BackendErr struct{ msg string }
+
+func (e *c15BackendErr) Error() string { return e.msg }
+
+var (
+	c15BackendMempool       = &c15BackendErr{"backend: txn-already-in-mempool"}
+	c15BackendMempoolMapped = &pushtx.BroadcastError{Code: pushtx.Mempool, Reason: "mapped from the backend's error"}
+)
+
+// c15Map is the harness's MapCustomBroadcastError.
+func c15Map(err error) error {
+	if err == error(c15BackendMempool) {
+		return c15BackendMempoolMapped
+	}
+	return err
 }
 
 // isAncestor: a is the direct parent of b in P<-C<-G (the statement orders
@@ -119,7 +139,8 @@ func c15Run(c *verifeng.Chooser, depth, ntx int, bursts bool) {
 			return &blockntfns.Subscription{Notifications: blocks,
 				Cancel: func() { cancelled = true }}, nil
 		},
-		RebroadcastInterval: time.Minute,
+		RebroadcastInterval:     time.Minute,
+		MapCustomBroadcastError: c15Map,
 	})
 	if err := b.Start(); err != nil {
 		panic(verifeng.InfraError{Msg: err.Error()})
@@ -350,7 +371,7 @@ func c15Run(c *verifeng.Chooser, depth, ntx int, bursts bool) {
 				menu = append(menu, ev{fmt.Sprintf("initial broadcast of %s returns %s", c15Names[p.tx], a.name), func() {
 					h.remove(p)
 					handlerBusy = nil
-					accepted := a.err == nil || pushtx.IsBroadcastError(a.err, pushtx.Mempool)
+					accepted := a.err == nil || pushtx.IsBroadcastError(c15Map(a.err), pushtx.Mempool)
 					if accepted {
 						pending[p.tx] = true
 					}
@@ -358,7 +379,7 @@ func c15Run(c *verifeng.Chooser, depth, ntx int, bursts bool) {
 						if accepted {
 							expectRet[handlerTask] = nil
 						} else {
-							expectRet[handlerTask] = a.err
+							expectRet[handlerTask] = c15Map(a.err)
 						}
 					}
 					handlerTask = nil
@@ -406,7 +427,7 @@ func c15Run(c *verifeng.Chooser, depth, ntx int, bursts bool) {
 			for _, a := range c15Answers {
 				a := a
 				p := roundCB
-				if pushtx.IsBroadcastError(a.err, pushtx.Confirmed) && !handlerIdle() {
+				if pushtx.IsBroadcastError(c15Map(a.err), pushtx.Confirmed) && !handlerIdle() {
 					// the confirmation would queue behind another stimulus;
 					// keep one stimulus at a time.
 					continue
@@ -414,7 +435,7 @@ func c15Run(c *verifeng.Chooser, depth, ntx int, bursts bool) {
 				menu = append(menu, ev{fmt.Sprintf("rebroadcast of %s returns %s", c15Names[p.tx], a.name), func() {
 					h.remove(p)
 					roundCB = nil
-					if pushtx.IsBroadcastError(a.err, pushtx.Confirmed) && !stopped {
+					if pushtx.IsBroadcastError(c15Map(a.err), pushtx.Confirmed) && !stopped {
 						handle("conf", p.tx)
 					}
 					p.release <- a.err
